@@ -121,6 +121,7 @@ type ldEvent struct {
 	ifID   uint16
 	state  int
 	badHow int
+	yd0    bool // the message carries Your Discriminator 0
 	sc     scenario
 	raw    []byte
 }
@@ -373,7 +374,14 @@ func (c *c15) history(hidx int) {
 	if err := tw.build(3, 0, 0); err != nil {
 		panic(err)
 	}
-	defer a.dp.Close()
+	// a message that wrongly reached a session which still holds our look-ahead message leaves a
+	// goroutine blocked inside ReceiveMessage: such a data plane is abandoned, not closed
+	leak := false
+	defer func() {
+		if !leak {
+			a.dp.Close()
+		}
+	}()
 	e.Op(a.modelCfg(), "ok", "~cfg")
 
 	// generate the history
@@ -393,7 +401,7 @@ func (c *c15) history(hidx int) {
 		switch {
 		case x < 34:
 			st := []int{0, 1, 1, 2, 2, 2, 3, 3, 3, 3, 3}[r.Intn(11)]
-			evs = append(evs, ldEvent{kind: "recv", ifID: id, state: st})
+			evs = append(evs, ldEvent{kind: "recv", ifID: id, state: st, yd0: st <= 1 && r.Chance(40)})
 		case x < 40:
 			// a message followed by the detection time elapsing; only after a plain message on
 			// the same link (see the synchronisation in the recvt case below)
@@ -408,7 +416,7 @@ func (c *c15) history(hidx int) {
 			}
 			evs = append(evs, ldEvent{kind: kind, ifID: id, state: []int{1, 2, 3, 3}[r.Intn(4)]})
 		case x < 45:
-			evs = append(evs, ldEvent{kind: "bad", ifID: id, state: r.Intn(4), badHow: r.Intn(7)})
+			evs = append(evs, ldEvent{kind: "bad", ifID: id, state: r.Intn(4), badHow: []int{0, 1, 2, 3, 3, 3, 4, 5, 6}[r.Intn(9)]})
 		case x < 52:
 			evs = append(evs, ldEvent{kind: "ohp", ifID: id})
 		default:
@@ -440,6 +448,9 @@ func (c *c15) history(hidx int) {
 		m := bfdMsg(1, false) // dummy: held by the session, never applied
 		if j >= 0 {
 			m = bfdMsg(evs[j].state, evs[j].kind == "recvt")
+			if evs[j].yd0 {
+				m.YourDiscriminator = 0
+			}
 			via = evs[j].ifID
 		}
 		d, p, hung := a.dp.Deliver(a.bfdPacket(via, m), via, true, 3*time.Second)
@@ -461,6 +472,9 @@ func (c *c15) history(hidx int) {
 		switch ev.kind {
 		case "recv", "recvt":
 			op := fmt.Sprintf("ld %s %d %d #%d.%d", ev.kind, ev.ifID, ev.state, hidx, k)
+			if ev.yd0 {
+				op = fmt.Sprintf("ld recvd %d %d 0 #%d.%d", ev.ifID, ev.state, hidx, k)
+			}
 			if !started {
 				continue
 			}
@@ -527,7 +541,8 @@ func (c *c15) history(hidx int) {
 			case 2:
 				m.MyDiscriminator = 0
 			case 3:
-				m.YourDiscriminator, m.State = 0, layers.BFDStateUp
+				// Your Discriminator 0 is acceptable only with State Down / AdminDown
+				m.YourDiscriminator, m.State = 0, []layers.BFDState{layers.BFDStateInit, layers.BFDStateUp}[r.Intn(2)]
 			case 4:
 				m.Poll = true
 			case 5:
@@ -540,9 +555,14 @@ func (c *c15) history(hidx int) {
 			// (parked): an accepted message would block. Deliver reports that as hung.
 			d, p, hung := a.dp.Deliver(a.bfdPacket(ev.ifID, m), ev.ifID, false, 500*time.Millisecond)
 			if a.linkHasBFD(ev.ifID) && (p || hung) {
-				e.Violate("C15/bad-bfd-accepted", "a BFD control message that must be discarded reached the session",
-					map[string]any{"if": ev.ifID, "how": ev.badHow, "disp": d})
-				abort = true
+				e.Violate("C15/bad-bfd-accepted", "a BFD control message that must be discarded reached the session (it can bring a down link up without handshake)",
+					map[string]any{"if": ev.ifID, "how": ev.badHow, "disp": d, "bfd_state": int(m.State), "your_discriminator": uint32(m.YourDiscriminator),
+						"version": m.Version, "detect_mult": int(m.DetectMultiplier), "my_discriminator": uint32(m.MyDiscriminator), "history": hidx, "event": k, "config": a.modelCfg()})
+				abort, leak = true, true
+			}
+			if ev.badHow == 3 && a.linkHasBFD(ev.ifID) && !abort {
+				// correspondence line: the model discards it too, the session state is unchanged
+				e.Op(fmt.Sprintf("ld recvd %d %d 0 #%d.%d", ev.ifID, int(m.State), hidx, k), fmt.Sprintf("st %d", a.dp.Session(ev.ifID).State()), fmt.Sprintf("recvd-discarded/%d", int(m.State)))
 			}
 			e.Case(fmt.Sprintf("bad:%d:%d:%d:%d", hidx, k, ev.ifID, ev.badHow), "bfd-discarded", false)
 		case "pkt":
